@@ -64,6 +64,41 @@ def _work(job):
     }
 
 
+def _work_repo(job):
+    """analyse the generated modules of one crate of the repository's own workspace (Sigma-free rules)"""
+    prop, fpath = job
+    rep = rules.Report(prop)
+    try:
+        F = sym.Facts(fpath)
+        ex = sym.Exec(F)
+        gens = []
+        for m in F.mods:
+            if not (m['name'].startswith('__nutype_') and m['name'].endswith('__')):
+                continue
+            d = rules.pseudo_decl(F, m)
+            if d is None:
+                continue
+            g = model.Gen(F, ex, d)
+            if g.adt is None:
+                continue
+            gens.append(g)
+            try:
+                rules.check_repo_declaration(rep, g, prop)
+            except Exception as e:
+                rep.ob('R-INTERNAL', None, g, f'rule crashed: {e!r}', {'tb': traceback.format_exc()[-1500:]})
+        if gens and prop in props.CRATE_PROPS:
+            props.CRATE_PROPS[prop](rep, F, gens)
+    except Exception as e:
+        return {'crate': os.path.basename(fpath), 'error': repr(e), 'tb': traceback.format_exc()}
+    return {
+        'crate': os.path.basename(fpath), 'obligations': rep.obligations, 'discharged': rep.discharged,
+        'findings': [{'key': f.key, 'prop': f.prop, 'rule': f.rule, 'decl_key': f.decl_key, 'what': f.what, 'detail': f.detail,
+                      'decl_name': f.decl['name'] if f.decl else None} for f in rep.findings],
+        'undecided': rep.undecided, 'instances': {k + ' (repo)': v for k, v in rep.instances.items()}, 'samples': [],
+        'decls': len(rep.decls), 'bodies': len(rep.bodies),
+    }
+
+
 def run_e_level(prop, tier):
     crates, paths, info = build.mir_facts(tier)
     if info['fails']:
@@ -107,6 +142,17 @@ def check(prop, tier, only_key=None):
     if errs:
         print(f'check {prop}: worker failed: {errs[0]["error"]}\n{errs[0]["tb"]}')
         return 2
+    # ---- R-level: the repository's own declarations (tests, examples), structural rules only
+    repo_decls = 0
+    if prop in props.REPO_PROPS:
+        files, rinfo = build.repo_facts()
+        if rinfo.get('rc'):
+            print(f'check {prop}: the repository workspace does not compile with the driver: {rinfo.get("tail", "")[-1500:]}')
+            return 2
+        with multiprocessing.Pool(min(16, max(1, len(files)))) as pool:
+            rres = pool.map(_work_repo, [(prop, f) for f in files])
+        repo_decls = sum(r.get('decls', 0) for r in rres)
+        results = list(results) + rres
     # ---- T-level: the unit tests the macro generates (cfg(test) build of a dedicated corpus)
     if prop in props.T_PROPS:
         tcrates, tpaths, tinfo = build.test_facts(tier)
@@ -217,7 +263,8 @@ def check(prop, tier, only_key=None):
             'explanation': 'static analysis of the macro-expanded corpus: MIR path enumeration vs reference model',
             'obligations': obligations, 'discharged': discharged, 'undecided': len(undecided),
             'declarations': sum(r['decls'] for r in results), 'bodies_analysed': sum(r['bodies'] for r in results),
-            'rule_instances': instances, 'samples': samples + wsamples, 'witnesses': wstats, 'known_findings_hit': len(hit),
+            'rule_instances': instances, 'samples': samples + wsamples, 'witnesses': wstats,
+            'repo_own_declarations': repo_decls, 'known_findings_hit': len(hit),
             'programs': sum(r['decls'] for r in results), 'disagreements_checked': obligations,
             'evaluations': obligations, 'distinct_nontrivial': sum(r['decls'] for r in results),
             'undecided_samples': undecided[:10],
